@@ -1,7 +1,8 @@
 --------------------------- MODULE Summary_Trace ---------------------------
 (* Judge of C14 on rows recorded from real runs (and from real models with  *)
 (* statuses set through the public API).  A row is                          *)
-(*   [id, prog: Seq([kind, children]), end: [status, step_status, live_ok], *)
+(*   [id, prog: Seq([kind, children]), end: [status, step_status,           *)
+(*    ran_status, ran_step_status, live_ok],                                            *)
 (*    c14: [reps: Seq(observation), col: collector observation]]            *)
 (* (formats of the observations: Summary.tla).  The census is computed here *)
 (* from the recorded final statuses -- Python never counts.  One state per  *)
@@ -17,7 +18,11 @@ VARIABLE i
 Init == i = 1
 
 ModelOf(r) == [kind |-> [e \in DOMAIN r.prog |-> r.prog[e].kind], children |-> [e \in DOMAIN r.prog |-> r.prog[e].children],
-               status |-> r.end.status, steps |-> r.end.step_status]
+               \* a scenario (outline row) object that was announced during the run counts with the status it -- and its
+               \* steps -- finally have (ran_status, ran_step_status; "" = never announced); the others with what the
+               \* model shows after the run
+               status |-> [e \in DOMAIN r.prog |-> IF r.end.ran_status[e] # "" THEN r.end.ran_status[e] ELSE r.end.status[e]],
+               steps |-> [e \in DOMAIN r.prog |-> IF r.end.ran_status[e] # "" THEN r.end.ran_step_status[e] ELSE r.end.step_status[e]]]
 ObsOf(r) == [reps |-> r.c14.reps, col |-> r.c14.col, live_ok |-> r.end.live_ok]
 
 Diverging(r, m) ==
